@@ -30,7 +30,7 @@ ASSUMPTIONS = [
     "'equal to what a newly constructed instance would hold' is decided against an instance constructed with no arguments in the same world",
     "whether a default exists is decided from the descriptor (nearest class along the MRO giving the name a value), not from library metadata",
 ]
-PROFILE = dict(grammar.PROFILES["data"], flags=False)
+PROFILE = dict(grammar.PROFILES["data_plain"], flags=False)  # do_not_copy attributes are by design not copied by the constructor
 
 
 @st.composite
@@ -173,6 +173,12 @@ def run_case(ctx, case):
                 if fresh:
                     fd = object.__getattribute__(fresh, "__dict__")
                     if name in fd and Snapshot(fd[name]).structure() != Snapshot(td[name]).structure():
+                        if world.prepare_kind(name) or world.prepare_kind(name, item=True):
+                            # root cause: the constructor runs the attribute's (item) preparer over the default, del/reset do not
+                            ctx.fail("reset|default-not-prepared", case,
+                                     f"step {i} {op}: {name!r} is {td[name]!r} after the reset; a newly constructed {type(target).__name__} holds {fd[name]!r} "
+                                     f"(the default is changed by the attribute's own preparer, which reset does not run)")
+                            return
                         ctx.fail(f"{route}|reset_wrong_value:{world.declared_default(name)[0]}", case,
                                  f"step {i} {op}: {name!r} is {td[name]!r} after the reset; a newly constructed {type(target).__name__} holds {fd[name]!r}")
                         return
